@@ -1,7 +1,8 @@
 (* ExLambdaProofs.v — C04: application of function values (model/ExLambda.v).
    (1) WITHOUT the limits of f1d4764 termination is false: ((f) => f(f))((f) => f(f)) exhausts every fuel.
    (2) WITH a depth limit D every evaluation returns: fuel (D + 2) * (H + 2) suffices, H = height of the expression
-       (and of the bodies of the closures in its scope); the returned state shows at most max_calls calls. *)
+       (and of the bodies of the closures in its scope); the returned state shows at most max_calls calls.
+   (3) WITH the work budget of e14c6f8 every call made has been paid for: 100 * calls <= the budget. *)
 From Coq Require Import ZArith NArith List Bool Lia.
 From Verif Require Import model.ExLambda.
 Import ListNotations.
@@ -13,31 +14,45 @@ Definition self_body : lexpr := LApp (LVar 0%N) (ACons (LVar 0%N) ANil).
 Definition self_clo : lval := LVClo [0%N] self_body ENil.
 Definition self_env : lenv := ECons 0%N self_clo ENil.
 
-Lemma leval_var : forall md mc f st env x,
-  leval md mc (S f) st env (LVar x) = (LRet (match lookup env x with Some v => v | None => LVErr end), st).
+Lemma leval_var : forall md mc ch f st env x,
+  leval md mc ch (S f) st env (LVar x) = (LRet (match lookup env x with Some v => v | None => LVErr end), st).
+Proof. reflexivity. Qed.
+
+(* without a budget nothing is charged *)
+Lemma spend_uncharged : forall v st, spend false v st = (v, st).
+Proof. reflexivity. Qed.
+Lemma spend_work_uncharged : forall n st, spend_work false n st = (true, st).
 Proof. reflexivity. Qed.
 
 (* one unfolding of the application f(f) in the scope where f is the self-applying closure *)
 Lemma self_body_step : forall f st,
-  leval None None (S (S (S f))) st self_env self_body
-  = (fst (leval None None (S (S f)) (LState (N.succ (calls st)) (S (depth st))) self_env self_body),
-     LState (calls (snd (leval None None (S (S f)) (LState (N.succ (calls st)) (S (depth st))) self_env self_body))) (depth st)).
+  leval None None false (S (S (S f))) st self_env self_body
+  = (fst (leval None None false (S (S f)) (LState (N.succ (calls st)) (S (depth st)) (wleft st)) self_env self_body),
+     LState (calls (snd (leval None None false (S (S f)) (LState (N.succ (calls st)) (S (depth st)) (wleft st)) self_env self_body)))
+            (depth st)
+            (wleft (snd (leval None None false (S (S f)) (LState (N.succ (calls st)) (S (depth st)) (wleft st)) self_env self_body)))).
 Proof.
   intros f st.
-  change (leval None None (S (S (S f))) st self_env self_body) with
-    (match leval None None (S (S f)) st self_env (LVar 0%N) with
+  change (leval None None false (S (S (S f))) st self_env self_body) with
+    (match leval None None false (S (S f)) st self_env (LVar 0%N) with
      | (LRet fv, st1) =>
          if is_lerr fv then (LRet fv, st1) else
          match fv with
          | LVClo ps body cenv =>
-             match leval_args None None (S (S f)) st1 self_env (ACons (LVar 0%N) ANil) with
-             | (Some vs, st2) =>
-                 if negb (Nat.eqb (length vs) (length ps)) then (LRet LVErr, st2)
-                 else if over None (depth st2) then (LRet LVErr, st2)
-                 else if over_calls None (calls st2) then (LRet LVErr, st2)
-                 else match leval None None (S (S f)) (LState (N.succ (calls st2)) (S (depth st2))) (bind ps vs cenv) body with
-                      | (r, st3) => (r, LState (calls st3) (depth st2))
-                      end
+             match leval_args None None false (S (S f)) st1 self_env (ACons (LVar 0%N) ANil) with
+             | (Some vs, st2a) =>
+                 let (covered, st2) := spend_work false function_call_work st2a in
+                 if negb covered then (LRet LVErr, st2)
+                 else
+                   match (if negb (Nat.eqb (length vs) (length ps)) then (LRet LVErr, st2)
+                          else if over None (depth st2) then (LRet LVErr, st2)
+                          else if over_calls None (calls st2) then (LRet LVErr, st2)
+                          else match leval None None false (S (S f)) (LState (N.succ (calls st2)) (S (depth st2)) (wleft st2)) (bind ps vs cenv) body with
+                               | (r, st3) => (r, LState (calls st3) (depth st2) (wleft st3))
+                               end) with
+                   | (LRet r0, st3) => let (r, st4) := spend false r0 st3 in (LRet r, st4)
+                   | other => other
+                   end
              | (None, st2) => (LNoFuel, st2)
              end
          | _ => (LRet LVErr, st1)
@@ -45,14 +60,14 @@ Proof.
      | other => other
      end).
   unfold self_env, self_clo. rewrite leval_var. cbn [lookup N.eqb Pos.eqb is_lerr].
-  assert (Ha : leval_args None None (S (S f)) st (ECons 0%N (LVClo [0%N] self_body ENil) ENil) (ACons (LVar 0%N) ANil)
+  assert (Ha : leval_args None None false (S (S f)) st (ECons 0%N (LVClo [0%N] self_body ENil) ENil) (ACons (LVar 0%N) ANil)
                = (Some [LVClo [0%N] self_body ENil], st)) by reflexivity.
-  rewrite Ha. cbn [length negb Nat.eqb over over_calls bind].
-  destruct (leval None None (S (S f)) (LState (N.succ (calls st)) (S (depth st))) (ECons 0%N (LVClo [0%N] self_body ENil) ENil) self_body) as [r st3].
-  reflexivity.
+  rewrite Ha. rewrite spend_work_uncharged. cbn [length negb Nat.eqb over over_calls bind].
+  destruct (leval None None false (S (S f)) (LState (N.succ (calls st)) (S (depth st)) (wleft st)) (ECons 0%N (LVClo [0%N] self_body ENil) ENil) self_body) as [[r0|] st3];
+    [rewrite spend_uncharged|]; reflexivity.
 Qed.
 
-Lemma self_body_diverges : forall fuel st, fst (leval None None fuel st self_env self_body) = LNoFuel.
+Lemma self_body_diverges : forall fuel st, fst (leval None None false fuel st self_env self_body) = LNoFuel.
 Proof.
   induction fuel as [|f IH]; intros st; [reflexivity|].
   destruct f as [|f2]; [reflexivity|].
@@ -64,27 +79,49 @@ Theorem omega_never_returns : forall fuel st, fst (leval_unlimited fuel st ENil 
 Proof.
   intros fuel st. unfold leval_unlimited. destruct fuel as [|f]; [reflexivity|].
   destruct f as [|f2]; [reflexivity|]. destruct f2 as [|f3]; [reflexivity|].
-  change (leval None None (S (S (S f3))) st ENil omega) with
-    (match leval None None (S (S f3)) (LState (N.succ (calls st)) (S (depth st))) self_env self_body with
-     | (r, st3) => (r, LState (calls st3) (depth st))
+  change (leval None None false (S (S (S f3))) st ENil omega) with
+    (match (match leval None None false (S (S f3)) (LState (N.succ (calls st)) (S (depth st)) (wleft st)) self_env self_body with
+            | (r, st3) => (r, LState (calls st3) (depth st) (wleft st3))
+            end) with
+     | (LRet r0, st3) => let (r, st4) := spend false r0 st3 in (LRet r, st4)
+     | other => other
      end).
-  pose proof (self_body_diverges (S (S f3)) (LState (N.succ (calls st)) (S (depth st)))) as H.
-  destruct (leval None None (S (S f3)) (LState (N.succ (calls st)) (S (depth st))) self_env self_body) as [r st3].
+  pose proof (self_body_diverges (S (S f3)) (LState (N.succ (calls st)) (S (depth st)) (wleft st))) as H.
+  destruct (leval None None false (S (S f3)) (LState (N.succ (calls st)) (S (depth st)) (wleft st)) self_env self_body) as [r st3].
   simpl in H. subst r. reflexivity.
 Qed.
 
 (* the same expression under the limits: an error VALUE *)
 Example omega_limited_is_error :
-  fst (leval_limited 500 (LState 0 0) ENil omega) = LRet LVErr.
+  fst (leval_limited 500 lstate0 ENil omega) = LRet LVErr.
 Proof. vm_compute. reflexivity. Qed.
 
 (* ------------------------------------------------------------------------------------------------ *)
 (* (2) with a depth limit: fuel (D + 2) * (H + 2) suffices *)
 
+(* charging changes neither the depth nor the calls *)
+Lemma spend_work_depth : forall ch n st, depth (snd (spend_work ch n st)) = depth st.
+Proof. intros ch n st. unfold spend_work. destruct (negb ch); [reflexivity|]. destruct (wleft st <? 0)%Z; reflexivity. Qed.
+Lemma spend_work_calls : forall ch n st, calls (snd (spend_work ch n st)) = calls st.
+Proof. intros ch n st. unfold spend_work. destruct (negb ch); [reflexivity|]. destruct (wleft st <? 0)%Z; reflexivity. Qed.
+Lemma spend_depth : forall ch v st, depth (snd (spend ch v st)) = depth st.
+Proof.
+  intros ch v st. unfold spend. pose proof (spend_work_depth ch (lcost v) st) as H.
+  destruct (spend_work ch (lcost v) st) as [[|] st']; exact H.
+Qed.
+Lemma spend_calls : forall ch v st, calls (snd (spend ch v st)) = calls st.
+Proof.
+  intros ch v st. unfold spend. pose proof (spend_work_calls ch (lcost v) st) as H.
+  destruct (spend_work ch (lcost v) st) as [[|] st']; exact H.
+Qed.
+Lemma spend_value : forall ch v st, fst (spend ch v st) = v \/ fst (spend ch v st) = LVErr.
+Proof. intros ch v st. unfold spend. destruct (spend_work ch (lcost v) st) as [[|] st']; [left|right]; reflexivity. Qed.
+
 Section Total.
 
 Variable D : nat.                       (* the depth limit *)
 Variable max_calls : option N.
+Variable ch : bool.                     (* with or without the work budget *)
 Variable H : nat.                       (* bound on the height of every body that can be entered *)
 
 Fixpoint wf_val (v : lval) : Prop :=
@@ -110,6 +147,9 @@ Proof.
   destruct vs as [|v vs]; [exact He|]. inversion Hvs; subst. apply IH; [assumption|]. simpl. split; assumption.
 Qed.
 
+Lemma spend_wf : forall v st, wf_val v -> wf_val (fst (spend ch v st)).
+Proof. intros v st Hv. destruct (spend_value ch v st) as [E|E]; rewrite E; [assumption|exact I]. Qed.
+
 Definition need (h : nat) (st : lstate) : nat := h + (D - depth st) * (H + 2).
 
 Lemma need_same : forall h st st', depth st' = depth st -> need h st' = need h st.
@@ -118,9 +158,9 @@ Proof. intros h st st' E. unfold need. rewrite E. reflexivity. Qed.
 Lemma need_mono : forall h h' st, h <= h' -> need h st <= need h' st.
 Proof. intros. unfold need. lia. Qed.
 
-Lemma need_call : forall h (c : N) st, depth st < D -> need h (LState c (S (depth st))) + (H + 2) = h + need 0 st.
+Lemma need_call : forall h (c : N) w st, depth st < D -> need h (LState c (S (depth st)) w) + (H + 2) = h + need 0 st.
 Proof.
-  intros h c st Hd. unfold need. simpl depth.
+  intros h c w st Hd. unfold need. simpl depth.
   replace (D - depth st) with (S (D - S (depth st))) by lia. simpl. lia.
 Qed.
 
@@ -129,9 +169,9 @@ Proof. intros. unfold need. lia. Qed.
 
 Lemma eval_returns : forall fuel,
   (forall e st env, wf_env env -> height e <= H -> depth st <= D -> need (height e) st < fuel ->
-     exists v st', leval (Some D) max_calls fuel st env e = (LRet v, st') /\ wf_val v /\ depth st' = depth st) /\
+     exists v st', leval (Some D) max_calls ch fuel st env e = (LRet v, st') /\ wf_val v /\ depth st' = depth st) /\
   (forall a st env, wf_env env -> height_args a <= H -> depth st <= D -> need (height_args a) st < fuel ->
-     exists vs st', leval_args (Some D) max_calls fuel st env a = (Some vs, st') /\ Forall wf_val vs /\ depth st' = depth st).
+     exists vs st', leval_args (Some D) max_calls ch fuel st env a = (Some vs, st') /\ Forall wf_val vs /\ depth st' = depth st).
 Proof.
   induction fuel as [|f [IHe IHa]]; [split; intros; exfalso; eapply Nat.nlt_0_r; eassumption|]. split.
   - intros e st env Henv Hh Hd Hf. rewrite need_split in Hf.
@@ -139,10 +179,17 @@ Proof.
     + simpl. eexists _, _. repeat split; exact I.
     + simpl. eexists _, _. repeat split. destruct (lookup env x) eqn:El; [eapply lookup_wf; eauto|exact I].
     + simpl.
-      destruct (IHe a st env Henv ltac:(lia) Hd ltac:(rewrite need_split; lia)) as [va [st1 [Ea [_ Hd1]]]]. rewrite Ea.
-      destruct (IHe b st1 env Henv ltac:(lia) ltac:(lia) ltac:(rewrite need_split, (need_same 0 st st1 Hd1); lia))
-        as [vb [st2 [Eb [_ Hd2]]]]. rewrite Eb.
-      eexists _, _. repeat split; [destruct va, vb; exact I|lia].
+      destruct (IHe a st env Henv ltac:(lia) Hd ltac:(rewrite need_split; lia)) as [va0 [st1 [Ea [_ Hd1]]]]. rewrite Ea.
+      pose proof (spend_depth ch va0 st1) as Hs1. destruct (spend ch va0 st1) as [va st1']. simpl in Hs1.
+      destruct (IHe b st1' env Henv ltac:(lia) ltac:(lia)
+                  ltac:(rewrite need_split, (need_same 0 st st1' ltac:(lia)); lia))
+        as [vb0 [st2 [Eb [_ Hd2]]]]. rewrite Eb.
+      pose proof (spend_depth ch vb0 st2) as Hs2. destruct (spend ch vb0 st2) as [vb st2']. simpl in Hs2.
+      match goal with |- context [spend ch ?r st2'] =>
+        pose proof (spend_depth ch r st2') as Hs3; pose proof (spend_value ch r st2') as Hv3;
+        destruct (spend ch r st2') as [r3 st3] end.
+      simpl in Hs3, Hv3. eexists _, _. repeat split; [|lia].
+      destruct Hv3 as [-> | ->]; [destruct va, vb; exact I|exact I].
     + simpl. eexists _, _. repeat split; [lia|assumption].
     + simpl.
       destruct (IHe fn st env Henv ltac:(lia) Hd ltac:(rewrite need_split; lia)) as [fv [st1 [Ef [Hwf Hd1]]]]. rewrite Ef.
@@ -150,64 +197,207 @@ Proof.
       destruct fv as [z| |cps cbody cenv]; try (eexists _, _; repeat split; solve [exact I|assumption]).
       destruct Hwf as [Hcb Hce].
       destruct (IHa args st1 env Henv ltac:(lia) ltac:(lia) ltac:(rewrite need_split, (need_same 0 st st1 Hd1); lia))
-        as [vs [st2 [Eargs [Hvs Hd2]]]]. rewrite Eargs.
-      destruct (negb (Nat.eqb (length vs) (length cps))); [eexists _, _; repeat split; solve [exact I|lia]|].
-      unfold over. destruct (Nat.leb D (depth st2)) eqn:Eov; [eexists _, _; repeat split; solve [exact I|lia]|].
-      apply Nat.leb_gt in Eov.
-      destruct (over_calls max_calls (calls st2));
-        [eexists _, _; repeat split; solve [exact I|lia]|].
+        as [vs [st2a [Eargs [Hvs Hd2a]]]]. rewrite Eargs.
+      pose proof (spend_work_depth ch function_call_work st2a) as Hsw.
+      destruct (spend_work ch function_call_work st2a) as [covered st2]. simpl in Hsw.
+      destruct covered; cbn [negb]; [|eexists _, _; repeat split; solve [exact I|lia]].
       assert (Hd20 : depth st2 = depth st) by lia.
-      pose proof (need_call (height cbody) (N.succ (calls st2)) st2 Eov) as Hk.
-      rewrite (need_same 0 st st2 Hd20) in Hk.
-      destruct (IHe cbody (LState (N.succ (calls st2)) (S (depth st2))) (bind cps vs cenv)) as [v [st3 [Eb [Hv Hd3]]]];
-        [apply bind_wf; assumption|assumption|simpl; lia|lia|].
-      rewrite Eb. eexists _, _. repeat split; [assumption|simpl; lia].
+      (* the result of the call proper: a value and a state of the same depth *)
+      assert (Hcall : exists r0 st3,
+                (if negb (Nat.eqb (length vs) (length cps)) then (LRet LVErr, st2)
+                 else if Nat.leb D (depth st2) then (LRet LVErr, st2)
+                 else if over_calls max_calls (calls st2) then (LRet LVErr, st2)
+                 else match leval (Some D) max_calls ch f (LState (N.succ (calls st2)) (S (depth st2)) (wleft st2)) (bind cps vs cenv) cbody with
+                      | (r, st3) => (r, LState (calls st3) (depth st2) (wleft st3))
+                      end) = (LRet r0, st3) /\ wf_val r0 /\ depth st3 = depth st).
+      { destruct (negb (Nat.eqb (length vs) (length cps))); [eexists _, _; repeat split; solve [exact I|lia]|].
+        destruct (Nat.leb D (depth st2)) eqn:Eov; [eexists _, _; repeat split; solve [exact I|lia]|].
+        apply Nat.leb_gt in Eov.
+        destruct (over_calls max_calls (calls st2)); [eexists _, _; repeat split; solve [exact I|lia]|].
+        pose proof (need_call (height cbody) (N.succ (calls st2)) (wleft st2) st2 Eov) as Hk.
+        rewrite (need_same 0 st st2 Hd20) in Hk.
+        destruct (IHe cbody (LState (N.succ (calls st2)) (S (depth st2)) (wleft st2)) (bind cps vs cenv)) as [v [st3 [Eb [Hv Hd3]]]];
+          [apply bind_wf; assumption|assumption|simpl; lia|lia|].
+        rewrite Eb. eexists _, _. repeat split; [assumption|simpl; lia]. }
+      destruct Hcall as [r0 [st3 [Ec [Hr0 Hd3]]]]. rewrite Ec.
+      pose proof (spend_depth ch r0 st3) as Hs4. pose proof (spend_wf r0 st3 Hr0) as Hw4.
+      destruct (spend ch r0 st3) as [r st4]. simpl in Hs4, Hw4.
+      eexists _, _. repeat split; [assumption|lia].
   - intros a st env Henv Hh Hd Hf. rewrite need_split in Hf. destruct a as [|e rest]; simpl in Hh, Hf.
     + simpl. eexists _, _. repeat split. constructor.
     + simpl.
-      destruct (IHe e st env Henv ltac:(lia) Hd ltac:(rewrite need_split; lia)) as [v [st1 [Ee [Hv Hd1]]]]. rewrite Ee.
-      destruct (IHa rest st1 env Henv ltac:(lia) ltac:(lia) ltac:(rewrite need_split, (need_same 0 st st1 Hd1); lia))
+      destruct (IHe e st env Henv ltac:(lia) Hd ltac:(rewrite need_split; lia)) as [v0 [st1 [Ee [Hv Hd1]]]]. rewrite Ee.
+      pose proof (spend_depth ch v0 st1) as Hs1. pose proof (spend_wf v0 st1 Hv) as Hw1.
+      destruct (spend ch v0 st1) as [v st1']. simpl in Hs1, Hw1.
+      destruct (IHa rest st1' env Henv ltac:(lia) ltac:(lia)
+                  ltac:(rewrite need_split, (need_same 0 st st1' ltac:(lia)); lia))
         as [vs [st2 [Er [Hvs Hd2]]]]. rewrite Er.
       eexists _, _. repeat split; [constructor; assumption|lia].
 Qed.
 
 End Total.
 
-(* closed expressions, the limits of the repaired code: the fuel (100 + 2) * (height + 2) is always enough *)
-Theorem limited_eval_returns : forall e,
-  exists v st', leval_limited ((max_anon_function_depth + 2) * (height e + 2)) (LState 0 0) ENil e = (LRet v, st').
+(* closed expressions, the limits of the repaired code: the fuel (100 + 2) * (height + 2) is always enough, whatever
+   is left of the work budget *)
+Theorem limited_eval_returns : forall e w,
+  exists v st', leval_limited ((max_anon_function_depth + 2) * (height e + 2)) (LState 0 0 w) ENil e = (LRet v, st').
 Proof.
-  intros e.
-  destruct (eval_returns max_anon_function_depth (Some max_anon_function_calls) (height e)
+  intros e w.
+  destruct (eval_returns max_anon_function_depth (Some max_anon_function_calls) true (height e)
               ((max_anon_function_depth + 2) * (height e + 2))) as [He _].
-  destruct (He e (LState 0 0) ENil) as [v [st' [E _]]]; try (simpl; lia).
+  destruct (He e (LState 0 0 w) ENil) as [v [st' [E _]]]; try (simpl; lia).
   - exact I.
   - unfold need. simpl depth. unfold max_anon_function_depth. lia.
   - exists v, st'. exact E.
 Qed.
 
 (* the number of calls an evaluation makes never passes the limit: the counter only grows through the guarded branch *)
-Lemma calls_bounded : forall md mc fuel,
-  (forall e st env, (calls st <= mc)%N -> (calls (snd (leval md (Some mc) fuel st env e)) <= mc)%N) /\
-  (forall a st env, (calls st <= mc)%N -> (calls (snd (leval_args md (Some mc) fuel st env a)) <= mc)%N).
+Lemma calls_bounded : forall md mc ch fuel,
+  (forall e st env, (calls st <= mc)%N -> (calls (snd (leval md (Some mc) ch fuel st env e)) <= mc)%N) /\
+  (forall a st env, (calls st <= mc)%N -> (calls (snd (leval_args md (Some mc) ch fuel st env a)) <= mc)%N).
 Proof.
-  intros md mc. induction fuel as [|f [IHe IHa]]; [split; intros; simpl; assumption|]. split.
+  intros md mc ch. induction fuel as [|f [IHe IHa]]; [split; intros; simpl; assumption|]. split.
   - intros e st env Hc. destruct e as [z|x|a b|ps body|fn args]; simpl; try assumption.
-    + pose proof (IHe a st env Hc) as H1. destruct (leval md (Some mc) f st env a) as [[va|] st1]; simpl in *; [|assumption].
-      pose proof (IHe b st1 env H1) as H2. destruct (leval md (Some mc) f st1 env b) as [[vb|] st2]; simpl in *; assumption.
-    + pose proof (IHe fn st env Hc) as H1. destruct (leval md (Some mc) f st env fn) as [[fv|] st1]; simpl in *; [|assumption].
+    + pose proof (IHe a st env Hc) as H1. destruct (leval md (Some mc) ch f st env a) as [[va0|] st1]; simpl in *; [|assumption].
+      pose proof (spend_calls ch va0 st1) as S1. destruct (spend ch va0 st1) as [va st1']. simpl in S1.
+      pose proof (IHe b st1' env ltac:(rewrite S1; assumption)) as H2.
+      destruct (leval md (Some mc) ch f st1' env b) as [[vb0|] st2]; simpl in *; [|assumption].
+      pose proof (spend_calls ch vb0 st2) as S2. destruct (spend ch vb0 st2) as [vb st2']. simpl in S2.
+      match goal with |- context [spend ch ?r st2'] => pose proof (spend_calls ch r st2') as S3; destruct (spend ch r st2') as [r3 st3] end.
+      simpl in *. rewrite S3, S2. assumption.
+    + pose proof (IHe fn st env Hc) as H1. destruct (leval md (Some mc) ch f st env fn) as [[fv|] st1]; simpl in *; [|assumption].
       destruct (is_lerr fv); [assumption|]. destruct fv as [z| |cps cbody cenv]; try assumption.
-      pose proof (IHa args st1 env H1) as H2. destruct (leval_args md (Some mc) f st1 env args) as [[vs|] st2]; simpl in *; [|assumption].
-      destruct (negb _); [assumption|]. destruct (over md (depth st2)); [assumption|].
-      destruct (N.leb mc (calls st2)) eqn:Eov; [assumption|]. apply N.leb_gt in Eov.
-      pose proof (IHe cbody (LState (N.succ (calls st2)) (S (depth st2))) (bind cps vs cenv)) as H3. simpl in H3.
-      destruct (leval md (Some mc) f (LState (N.succ (calls st2)) (S (depth st2))) (bind cps vs cenv) cbody) as [r st3].
-      simpl in *. apply H3. lia.
+      pose proof (IHa args st1 env H1) as H2. destruct (leval_args md (Some mc) ch f st1 env args) as [[vs|] st2a]; simpl in *; [|assumption].
+      pose proof (spend_work_calls ch function_call_work st2a) as Sw.
+      destruct (spend_work ch function_call_work st2a) as [covered st2]. simpl in Sw.
+      assert (H2' : (calls st2 <= mc)%N) by (rewrite Sw; assumption).
+      destruct covered; cbn [negb]; [|assumption].
+      assert (Hcall : (calls (snd (if negb (Nat.eqb (length vs) (length cps)) then (LRet LVErr, st2)
+                 else if over md (depth st2) then (LRet LVErr, st2)
+                 else if N.leb mc (calls st2) then (LRet LVErr, st2)
+                 else match leval md (Some mc) ch f (LState (N.succ (calls st2)) (S (depth st2)) (wleft st2)) (bind cps vs cenv) cbody with
+                      | (r, st3) => (r, LState (calls st3) (depth st2) (wleft st3))
+                      end)) <= mc)%N).
+      { destruct (negb _); [assumption|]. destruct (over md (depth st2)); [assumption|].
+        destruct (N.leb mc (calls st2)) eqn:Eov; [assumption|]. apply N.leb_gt in Eov.
+        pose proof (IHe cbody (LState (N.succ (calls st2)) (S (depth st2)) (wleft st2)) (bind cps vs cenv)) as H3. simpl in H3.
+        destruct (leval md (Some mc) ch f (LState (N.succ (calls st2)) (S (depth st2)) (wleft st2)) (bind cps vs cenv) cbody) as [r st3].
+        simpl in *. apply H3. lia. }
+      match type of Hcall with context [snd ?X] => destruct X as [[r0|] st3] end;
+        simpl in Hcall; [|assumption].
+      pose proof (spend_calls ch r0 st3) as S4. destruct (spend ch r0 st3) as [r st4]. simpl in *. rewrite S4. assumption.
   - intros a st env Hc. destruct a as [|e rest]; simpl; [assumption|].
-    pose proof (IHe e st env Hc) as H1. destruct (leval md (Some mc) f st env e) as [[v|] st1]; simpl in *; [|assumption].
-    pose proof (IHa rest st1 env H1) as H2. destruct (leval_args md (Some mc) f st1 env rest) as [[vs|] st2]; simpl in *; assumption.
+    pose proof (IHe e st env Hc) as H1. destruct (leval md (Some mc) ch f st env e) as [[v0|] st1]; simpl in *; [|assumption].
+    pose proof (spend_calls ch v0 st1) as S1. destruct (spend ch v0 st1) as [v st1']. simpl in S1.
+    pose proof (IHa rest st1' env ltac:(rewrite S1; assumption)) as H2.
+    destruct (leval_args md (Some mc) ch f st1' env rest) as [[vs|] st2]; simpl in *; assumption.
 Qed.
 
-Theorem limited_eval_calls_bounded : forall fuel e,
-  (calls (snd (leval_limited fuel (LState 0 0) ENil e)) <= max_anon_function_calls)%N.
-Proof. intros fuel e. apply (proj1 (calls_bounded _ _ fuel)). simpl. unfold max_anon_function_calls. lia. Qed.
+Theorem limited_eval_calls_bounded : forall fuel e w,
+  (calls (snd (leval_limited fuel (LState 0 0 w) ENil e)) <= max_anon_function_calls)%N.
+Proof. intros fuel e w. apply (proj1 (calls_bounded _ _ _ fuel)). simpl. unfold max_anon_function_calls. lia. Qed.
+
+(* ------------------------------------------------------------------------------------------------ *)
+(* (3) with the work budget every call has been paid for *)
+
+Lemma bit_len_nonneg : forall z, (0 <= ExValues.bit_len z)%Z.
+Proof. intros z. unfold ExValues.bit_len. destruct (z =? 0)%Z; [lia|]. pose proof (Z.log2_nonneg (Z.abs z)). lia. Qed.
+
+Lemma lcost_pos : forall v, (1 <= lcost v)%Z.
+Proof.
+  intros v. destruct v; unfold lcost; try lia. pose proof (bit_len_nonneg z) as H0.
+  pose proof (Z.div_pos (ExValues.bit_len z) 3 H0 ltac:(lia)). lia.
+Qed.
+
+(* what is left of the budget, as far as it is there *)
+Definition left (st : lstate) : Z := Z.max (wleft st) 0.
+
+(* between two states: 100 for every call made, out of what was left *)
+Definition paid (st st' : lstate) : Prop :=
+  (function_call_work * (Z.of_N (calls st') - Z.of_N (calls st)) + left st' <= left st)%Z.
+
+Arguments paid : simpl never.
+
+Lemma paid_refl : forall st, paid st st.
+Proof. intros st. unfold paid. lia. Qed.
+
+Lemma paid_trans : forall a b c, paid a b -> paid b c -> paid a c.
+Proof. intros a b c. unfold paid, function_call_work. lia. Qed.
+
+Lemma spend_work_paid : forall n st, (0 <= n)%Z -> paid st (snd (spend_work true n st)).
+Proof.
+  intros n st Hn. unfold spend_work. cbn [negb]. destruct (wleft st <? 0)%Z eqn:E; [apply paid_refl|].
+  apply Z.ltb_ge in E. unfold paid, left, function_call_work. cbn [snd calls wleft depth]. lia.
+Qed.
+
+Lemma spend_paid : forall v st, paid st (snd (spend true v st)).
+Proof.
+  intros v st. unfold spend. pose proof (spend_work_paid (lcost v) st ltac:(pose proof (lcost_pos v); lia)) as H.
+  destruct (spend_work true (lcost v) st) as [[|] st']; exact H.
+Qed.
+
+(* a call that the budget covers: 100 of what was left are gone *)
+Lemma spend_work_covered : forall st st', spend_work true function_call_work st = (true, st') ->
+  calls st' = calls st /\ depth st' = depth st /\ (function_call_work + left st' <= left st)%Z.
+Proof.
+  intros st st'. unfold spend_work. cbn [negb]. destruct (wleft st <? 0)%Z eqn:E; [discriminate|].
+  apply Z.ltb_ge in E. destruct (0 <=? wleft st - function_call_work)%Z eqn:E2; [|discriminate].
+  intros H. injection H as <-. apply Z.leb_le in E2. unfold left, function_call_work in *. cbn [calls wleft depth]. lia.
+Qed.
+
+Lemma calls_paid : forall md mc fuel,
+  (forall e st env, paid st (snd (leval md mc true fuel st env e))) /\
+  (forall a st env, paid st (snd (leval_args md mc true fuel st env a))).
+Proof.
+  intros md mc. induction fuel as [|f [IHe IHa]]; [split; intros; simpl; apply paid_refl|]. split.
+  - intros e st env. destruct e as [z|x|a b|ps body|fn args]; simpl; try apply paid_refl.
+    + pose proof (IHe a st env) as H1. destruct (leval md mc true f st env a) as [[va0|] st1]; simpl in *; [|assumption].
+      pose proof (spend_paid va0 st1) as S1. destruct (spend true va0 st1) as [va st1']. simpl in S1.
+      pose proof (IHe b st1' env) as H2. destruct (leval md mc true f st1' env b) as [[vb0|] st2]; simpl in *;
+        [|eapply paid_trans; [eapply paid_trans; eassumption|assumption]].
+      pose proof (spend_paid vb0 st2) as S2. destruct (spend true vb0 st2) as [vb st2']. simpl in S2.
+      match goal with |- context [spend true ?r st2'] => pose proof (spend_paid r st2') as S3; destruct (spend true r st2') as [r3 st3] end.
+      simpl in *. exact (paid_trans _ _ _ (paid_trans _ _ _ (paid_trans _ _ _ (paid_trans _ _ _ H1 S1) H2) S2) S3).
+    + pose proof (IHe fn st env) as H1. destruct (leval md mc true f st env fn) as [[fv|] st1]; simpl in *; [|assumption].
+      destruct (is_lerr fv); [assumption|]. destruct fv as [z| |cps cbody cenv]; try assumption.
+      pose proof (IHa args st1 env) as H2. destruct (leval_args md mc true f st1 env args) as [[vs|] st2a]; simpl in *;
+        [|eapply paid_trans; eassumption].
+      pose proof (spend_work_paid function_call_work st2a ltac:(unfold function_call_work; lia)) as Sw.
+      pose proof (spend_work_covered st2a) as Sc.
+      destruct (spend_work true function_call_work st2a) as [covered st2]. simpl in Sw.
+      assert (H12 : paid st st2a) by (eapply paid_trans; eassumption).
+      destruct covered; cbn [negb]; [|eapply paid_trans; eassumption].
+      destruct (Sc st2 eq_refl) as [Sc1 [Sc2 Sc3]].
+      assert (Hcall : paid st2a (snd (if negb (Nat.eqb (length vs) (length cps)) then (LRet LVErr, st2)
+                 else if over md (depth st2) then (LRet LVErr, st2)
+                 else if over_calls mc (calls st2) then (LRet LVErr, st2)
+                 else match leval md mc true f (LState (N.succ (calls st2)) (S (depth st2)) (wleft st2)) (bind cps vs cenv) cbody with
+                      | (r, st3) => (r, LState (calls st3) (depth st2) (wleft st3))
+                      end))).
+      { destruct (negb _); [assumption|]. destruct (over md (depth st2)); [assumption|].
+        destruct (over_calls mc (calls st2)); [assumption|].
+        pose proof (IHe cbody (LState (N.succ (calls st2)) (S (depth st2)) (wleft st2)) (bind cps vs cenv)) as H3.
+        destruct (leval md mc true f (LState (N.succ (calls st2)) (S (depth st2)) (wleft st2)) (bind cps vs cenv) cbody) as [r st3].
+        cbn [snd] in *. unfold paid, left, function_call_work in *. cbn [calls wleft depth] in *. lia. }
+      match type of Hcall with context [snd ?X] => destruct X as [[r0|] st3] end;
+        simpl in Hcall; [|eapply paid_trans; eassumption].
+      pose proof (spend_paid r0 st3) as S4. destruct (spend true r0 st3) as [r st4]. simpl in *.
+      eapply paid_trans; [eassumption|]. eapply paid_trans; eassumption.
+  - intros a st env. destruct a as [|e rest]; simpl; [apply paid_refl|].
+    pose proof (IHe e st env) as H1. destruct (leval md mc true f st env e) as [[v0|] st1]; simpl in *; [|assumption].
+    pose proof (spend_paid v0 st1) as S1. destruct (spend true v0 st1) as [v st1']. simpl in S1.
+    pose proof (IHa rest st1' env) as H2.
+    destruct (leval_args md mc true f st1' env rest) as [[vs|] st2]; simpl in *;
+      (eapply paid_trans; [eassumption|]; eapply paid_trans; eassumption).
+Qed.
+
+(* an evaluation makes at most budget / 100 calls of anonymous functions: 50000, fewer than the call limit allows *)
+Theorem limited_eval_calls_paid : forall fuel e,
+  (function_call_work * Z.of_N (calls (snd (leval_limited fuel lstate0 ENil e))) <= max_evaluation_work)%Z.
+Proof.
+  intros fuel e. unfold leval_limited.
+  pose proof (proj1 (calls_paid (Some max_anon_function_depth) (Some max_anon_function_calls) fuel) e lstate0 ENil) as H.
+  unfold paid, left in H.
+  change (calls lstate0) with 0%N in H. change (wleft lstate0) with max_evaluation_work in H. change (Z.of_N 0) with 0%Z in H.
+  unfold max_evaluation_work, function_call_work in *. lia.
+Qed.
